@@ -370,7 +370,7 @@ theorem mapPut_keysDiffer (vs : Vals) (k : Val) (e : Msg) (hk : entryHasKey e k 
         rw [hkk.1] at this
         cases this
         rw [h1] at hno; cases hno
-      · exact hd.1 b hb ea eb k1 rfl e2 h1 h2
+      · exact hd.1 b hb old eb k1 rfl e2 h1 h2
     cases x with
     | msg old =>
       rw [mapPut]
@@ -399,12 +399,12 @@ theorem mapPut_keysDiffer (vs : Vals) (k : Val) (e : Msg) (hk : entryHasKey e k 
     | num n =>
       rw [mapPut]
       · simp only [Vals.toList, List.pairwise_cons]
-        exact ⟨fun b _ ea eb k1 e1 => by cases e1, ih hd.2⟩
+        exact ⟨fun b _ ea eb k1 e1 => (by cases e1), ih hd.2⟩
       · intro old hh; cases hh
     | bytes b' =>
       rw [mapPut]
       · simp only [Vals.toList, List.pairwise_cons]
-        exact ⟨fun b _ ea eb k1 e1 => by cases e1, ih hd.2⟩
+        exact ⟨fun b _ ea eb k1 e1 => (by cases e1), ih hd.2⟩
       · intro old hh; cases hh
 
 /-! ### unknown fields, Mutable -/
@@ -461,8 +461,9 @@ theorem mutable_set (d : MsgD) (m : Msg) (f : Field) (fv : FVal) (hf : d.find f.
     have hg : (clearOneofFor d f fs).get? f.num = some fv := by
       unfold clearOneofFor
       split
-      · rw [Fields.get?_clearOneof]
-        have : d.otherMember _ f.num f.num = false := by
+      · rename_i o ho
+        rw [Fields.get?_clearOneof]
+        have : d.otherMember o f.num f.num = false := by
           unfold MsgD.otherMember; split <;> simp
         rw [this]; simpa using h
       · exact h
@@ -473,8 +474,9 @@ example :
     let d := Ex.S0.msg 0
     let m := run d Msg.empty [.set 1 (.num 5), .append 4 (.num 1), .append 4 (.num 2), .mapPut 5 (.bytes [0x61#8]) (.num 9),
       .set 6 (.bytes [0x62#8]), .mutable 7, .setUnknown [0x98#8, 0x06#8, 0x01#8], .truncate 4 1, .clear 1]
-    (range m).map (·.1) = [4, 5, 7] ∧ whichOneof d m 0 = some 7 ∧ listOf m 4 = [.num 1] ∧
-    mapGet m 5 (.bytes [0x61#8]) = some (.num 9) ∧ has m 6 = false ∧ m.unknown = [0x98#8, 0x06#8, 0x01#8] := by
+    (range m).map (·.1) = [4, 5, 7] ∧ whichOneof d m 0 = some 7 ∧ (listOf m 4).length = 1 ∧
+    (mapGet m 5 (.bytes [0x61#8])).isSome = true ∧ (mapGet m 5 (.bytes [0x62#8])).isSome = false ∧
+    has m 6 = false ∧ has m 1 = false ∧ m.unknown = [0x98#8, 0x06#8, 0x01#8] := by
   decide
 
 end C28
